@@ -15,22 +15,24 @@ class ExprArraySubscriptModel(ExprModel):
         
     def build(self, btor, ctx_width=-1):
         index = int(self.rhs.val())
+        fm = self._array().field_l[index]
+        return fm.build(btor)
+        
+    def _array(self):
+        """Returns the array being subscripted"""
+        from vsc.model.expr_indexed_field_ref_model import ExprIndexedFieldRefModel
         if isinstance(self.lhs, ExprFieldRefModel):
-            fm = self.lhs.fm.field_l[index]
-            return fm.build(btor)
+            return self.lhs.fm
+        elif isinstance(self.lhs, ExprIndexedFieldRefModel):
+            # An array reached through an element of a list of objects
+            return self.lhs.get_target()
         else:
             # TODO: support array slicing
             raise NotImplementedError("Cannot subscript an lvalue of type " + str(type(self.lhs)))
         
     def subscript(self):
-        from vsc.model.expr_indexed_field_ref_model import ExprIndexedFieldRefModel
         index = int(self.rhs.val())
-        if isinstance(self.lhs, ExprFieldRefModel):
-            fm = self.lhs.fm
-        elif isinstance(self.lhs, ExprIndexedFieldRefModel):
-            fm = self.lhs.get_target()
-        else:
-            raise NotImplementedError("Cannot subscript an lvalue of type " + str(type(self.lhs)))
+        fm = self._array()
             
         if index < len(fm.field_l):
             return fm.field_l[index]
@@ -40,36 +42,20 @@ class ExprArraySubscriptModel(ExprModel):
         
     def is_signed(self):
         index = int(self.rhs.val())
-        if isinstance(self.lhs, ExprFieldRefModel):
-            return self.lhs.fm.field_l[index].is_signed
-        else:
-            # TODO: support array slicing
-            raise NotImplementedError("Cannot subscript an lvalue of type " + str(type(self.lhs)))
+        return self._array().field_l[index].is_signed
         
     def width(self):
         index = int(self.rhs.val())
-        if isinstance(self.lhs, ExprFieldRefModel):
-            return self.lhs.fm.field_l[index].width
-        else:
-            # TODO: support array slicing
-            raise NotImplementedError("Cannot subscript an lvalue of type " + str(type(self.lhs)))
+        return self._array().field_l[index].width
         
     def accept(self, v):
         v.visit_expr_array_subscript(self)
         
     def val(self):
         index = int(self.rhs.val())
-        if isinstance(self.lhs, ExprFieldRefModel):
-            return self.lhs.fm.field_l[index].val()
-        else:
-            # TODO: support array slicing
-            raise NotImplementedError("Cannot subscript an lvalue of type " + str(type(self.lhs)))
+        return self._array().field_l[index].get_val()
         
     def getFieldModel(self):
         index = int(self.rhs.val())
-        if isinstance(self.lhs, ExprFieldRefModel):
-            return self.lhs.fm.field_l[index]
-        else:
-            # TODO: support array slicing
-            raise NotImplementedError("Cannot subscript an lvalue of type " + str(type(self.lhs)))
+        return self._array().field_l[index]
         
